@@ -1,5 +1,5 @@
 #!/bin/bash
-# tools/seed_matrix.sh [N] -- run every seeded change against the check of its own property (N at a time, default 6);
+# tools/seed_matrix.sh [N [SEED...]] -- run every seeded change (or only the named ones, e.g. C20-H) against the check of its own property (N at a time, default 6);
 # write detected_by into meta.json.  Seeds whose meta.json says "neutralised" are still run (expected: exit 0).
 cd "$(dirname "$0")/.."
 one() {
@@ -24,4 +24,5 @@ print(d, ex, first[:110])
 PY
 }
 export -f one
-ls -d seeded/*/ | sed 's:/$::' | xargs -P "${1:-6}" -I{} bash -c 'one {}'
+n="${1:-6}"; shift
+if [ $# -gt 0 ]; then for x in "$@"; do echo seeded/$x; done; else ls -d seeded/*/ | sed 's:/$::'; fi | xargs -P "$n" -I{} bash -c 'one {}'
